@@ -38,7 +38,9 @@ S1e5 == {100000}
 \* twice, most pairs of values at least once)
 Fm(c, n, s, p, a, k, m, d) == [set |-> TRUE, cont |-> c, naming |-> n, subst |-> s, psym |-> p, num |-> a,
                                calls |-> k, modearg |-> m, allow |-> d,
-                               keys |-> IF (n = "reversed" /\ k = 1) \/ (n = "plain" /\ k = 2) THEN "reversed" ELSE "plain"]
+                               keys |-> IF (n = "reversed" /\ k = 1) \/ (n = "plain" /\ k = 2) THEN "reversed" ELSE "plain",
+                               names |-> IF s \in {"superset", "none"} THEN "alias" ELSE "same",
+                               prior |-> IF p = "default" THEN "other" ELSE "same"]
 F_Default == {DefaultForm}
 F_Cover == {
     Fm("list", "plain", "map", "default", "int", 1, "plain", FALSE),
@@ -56,9 +58,17 @@ F_Cover == {
     Fm("dict", "reversed", "map", "user_int", "int", 2, "one", FALSE),
     Fm("tuple", "plain", "none", "default", "float", 2, "plain", FALSE),
     Fm("frozenset", "reversed", "map", "default", "explicit0", 1, "one", TRUE),
-    Fm("set", "plain", "superset", "default", "explicit0", 1, "plain", FALSE) }
+    Fm("set", "plain", "superset", "default", "explicit0", 1, "plain", FALSE),
+    Fm("keysview", "plain", "map", "default", "numpy", 2, "one", FALSE),
+    Fm("generator", "reversed", "none", "user_int", "sympy", 1, "plain", FALSE),
+    Fm("keysview", "reversed", "str", "default", "fraction", 1, "one", TRUE),
+    Fm("generator", "plain", "map", "default", "explicit0f", 1, "one", FALSE),
+    Fm("list", "reversed", "superset", "user_plain", "numpy", 2, "plain", FALSE),
+    Fm("tuple", "plain", "str", "default", "sympy", 2, "one", TRUE),
+    Fm("set", "plain", "none", "default", "fraction", 2, "plain", FALSE),
+    Fm("dict", "plain", "map", "user_int", "explicit0f", 2, "one", TRUE) }
 F_Loose == {DefaultForm, [DefaultForm EXCEPT !.num = "explicit0", !.keys = "reversed"],
-            [DefaultForm EXCEPT !.num = "float", !.cont = "set"]}
+            [DefaultForm EXCEPT !.num = "explicit0f", !.cont = "set", !.names = "alias"]}
 ASSUME \A f \in F_Cover \cup F_Loose : IsForm(f)
 Sh_Forms == {<<1, 2, 2>>, <<2, 1, 2>>, <<2, 2, 2>>}
 D_Both == {"none", "some"}
